@@ -232,9 +232,10 @@ def build(read):
                     && (cur_interpolation_start + 1 < chars@.len() ==> chars@[cur_interpolation_start + 1] == '{'),
                 !interpolate ==> interpolation_slots@.len() == 0,
                 !interpolate ==> scan_inv(self.scanner.text(), lit_start(old(self).scanner.text(), old(self).scanner.pos()), self.scanner.pos(), state, first_hex_char, chars@), // [C09_C15:the_text_decoded_so_far_is_the_decoding_of_the_source_read_so_far]
-                !(state is Interpolate) ==> interpolation_brace_count == 0,"""}}
+                !(state is Interpolate) ==> interpolation_brace_count == 0,
+            decreases self.scanner.text().len() - self.scanner.pos(), // [C03:scanning_a_string_literal_terminates_every_iteration_consumes_a_character]"""}}
     loops[1]["body_start"] = "let ghost slots0 = interpolation_slots@;"
-    f = extract.annotate_fn(hdr + body, spec=SPEC, attrs="#[verifier::exec_allows_no_decreases_clause]\n#[verifier::loop_isolation(false)]", loops=loops)
+    f = extract.annotate_fn(hdr + body, spec=SPEC, attrs="#[verifier::loop_isolation(false)]", loops=loops)
     # proof hints (ghost only): pushing a character leaves the brace depth of every prefix and the recorded slots untouched
     n = len(re.findall(r"chars\.push\(", f))
     f = re.sub(r"(\n)(\s*)(chars\.push\(([^;]*)\);)",
